@@ -208,6 +208,26 @@ func C19(tier rt.Tier) int {
 						report(n, "a rejected SetTree changed the root of the tree the object holds")
 						return
 					}
+					// a caller keeps the paths it was given: every path of every object is fetched first (by lookup and by
+					// index), and all of them are verified only afterwards
+					{
+						objs := []*util.MerkleTree{&mt, &mt2, &used}
+						var kept [][2]*util.MTPath
+						for _, o := range objs {
+							for i := 0; i < n; i++ {
+								kept = append(kept, [2]*util.MTPath{o.GetPath(leaf(leaves[i])), o.GetPathByIndex(i)})
+							}
+						}
+						for x, kp := range kept {
+							oi, i := x/n, x%n
+							for which, q := range kp {
+								if q.LeafIndex != i || !util.VerifyMerklePath(leaves[i], q, root) {
+									report(n, fmt.Sprintf("the path of leaf %d obtained from object %d (%s) no longer proves its leaf after the paths of the other leaves were fetched (leaf index %d, %d nodes)", i, oi, []string{"GetPath", "GetPathByIndex"}[which], q.LeafIndex, len(q.Nodes)))
+									return
+								}
+							}
+						}
+					}
 					le, lp, ln := 0, 0, 0
 					for i := 0; i < n; i++ {
 						p := mt.GetPathByIndex(i)
